@@ -477,33 +477,86 @@ def run(ctx):
             continue
         ctx.saw_fn(vf)
         body = hirq.body_of(vf)
+        # decided on the CFG (independent of how the comparison is spelled or which arm comes first): find the one comparison
+        # of the computed digest with a header digest field; on its *unequal* successor every reachable result is an Err, and
+        # an Ok is reachable only through the *equal* successor
         good = False
-        why = "no `if digest != self.header.%s { return Err }` found" % fld
-        for n in hirq.find(body, "if"):
-            ats = cmpeval.atoms(n["c"])
-            if len(ats) != 2:
-                continue
-            side = [a for a in ats if fld in a]
-            wrong = [a for a in ats if other in a]
-            if wrong:
-                why = "compares against `%s` instead of `%s`" % (other, fld)
-                continue
-            if not side:
-                continue
-            o = [a for a in ats if a not in side][0]
-            try:
-                tt = cmpeval.truth_table(n["c"], o, side[0])
-            except cmpeval.Unknown as e:
-                why = "comparison not understood: %s" % e
-                continue
-            errs = [r for r in hirq.find(n["then"], "ret") if "Err" in hirq.render(r)]
-            if tt == {"lt": True, "eq": False, "gt": True} and errs:
-                good = True
-            elif tt == {"lt": False, "eq": True, "gt": False} and n.get("else") and "Err" in hirq.render(n["else"]):
-                good = True
-            else:
-                why = "condition `%s` has table %s / then-branch does not return Err" % (hirq.render(n["c"]), tt)
-        # the hashed data must be the parameter
+        why = "no comparison of the computed digest with self.header.%s found" % fld
+        cfg = mirg.Cfg(vf)
+        blocks = vf.mir["blocks"]
+        rets = rules.ret_assignments(vf)
+        cmp_sites = []          # (bb, result_local, sense)  sense: True = result is "equal"
+        for bb_, b_ in enumerate(blocks):
+            for st_ in b_["s"]:
+                if st_[0] == "=" and st_[2][0] == "bin" and st_[2][1] in ("Eq", "Ne"):
+                    cmp_sites.append((bb_, mirg.plocal(st_[1]), st_[2][1] == "Eq", st_[3]))
+            t_ = b_["t"]
+            if t_["k"] == "call" and re.search(r"::(eq|ne)$", ncallee(t_) or "") and "fmt" not in (ncallee(t_) or ""):
+                cmp_sites.append((bb_, mirg.plocal(t_["d"]), (ncallee(t_) or "").endswith("::eq"), t_["ln"]))
+        # which field the comparison reads (typed HIR: the field named in a ==/!= with the digest)
+        cmp_fields = set()
+        for x in hirq.walk(body):
+            if x.get("k") == "bin" and x["op"] in ("==", "!="):
+                for y in hirq.walk(x):
+                    if y.get("k") == "field" and y["name"] in (fld, other):
+                        cmp_fields.add(y["name"])
+        if other in cmp_fields and fld not in cmp_fields:
+            why = "compares against `%s` instead of `%s`" % (other, fld)
+        elif fld not in cmp_fields:
+            why = "no ==/!= involving self.header.%s" % fld
+        else:
+            for bb_, rl, sense, ln_ in cmp_sites:
+                # follow the bool through Not / copies to the switch that branches on it
+                cur, flip = {rl}, {rl: False}
+                sw = None
+                for _ in range(6):
+                    for b2i, b2 in enumerate(blocks):
+                        for st_ in b2["s"]:
+                            if st_[0] == "=" and mirg.plocal(st_[1]) not in flip:
+                                ops_ = [mirg.op_local(o) for o in mirg.rvalue_operands(st_[2])]
+                                src = next((o for o in ops_ if o in flip), None)
+                                if src is not None and st_[2][0] in ("use", "un"):
+                                    flip[mirg.plocal(st_[1])] = flip[src] ^ (st_[2][0] == "un" and st_[2][1] == "Not")
+                        t2 = b2["t"]
+                        if t2["k"] == "switch" and mirg.op_local(t2["d"]) in flip and sw is None:
+                            sw = (b2i, t2, flip[mirg.op_local(t2["d"])])
+                if sw is None:
+                    continue
+                b2i, t2, flipped = sw
+                zero_target = next((tg for v_, tg in t2["ts"] if v_ == 0), None)
+                other_target = t2["o"]
+                # value 0 == false
+                equal_is_true = sense ^ flipped
+                unequal_succ = zero_target if equal_is_true else other_target
+                equal_succ = other_target if equal_is_true else zero_target
+                if unequal_succ is None or equal_succ is None:
+                    continue
+                reach_u = cfg.reachable(unequal_succ, avoid={equal_succ} if False else ())
+                reach_e = cfg.reachable(equal_succ)
+                kinds_u = [k_ for bb2, k_, _p in rets if bb2 in reach_u and bb2 not in (cfg.reachable(equal_succ) & cfg.reachable(unequal_succ) if False else set())]
+                # results that are assigned on paths exclusive to the unequal side
+                excl_u = reach_u - reach_e
+                kinds_excl = [k_ for bb2, k_, _p in rets if bb2 in excl_u]
+                ok_on_unequal = any(k_ in ("ok",) for k_ in kinds_excl)
+                err_on_unequal = any(k_ in ("err", "residual") for k_ in kinds_excl) or any(k_ in ("err",) for bb2, k_, _p in rets if bb2 in reach_u and bb2 not in reach_e)
+                shared = reach_u & reach_e
+                ok_shared = any(k_ == "ok" for bb2, k_, _p in rets if bb2 in shared)
+                # an Ok result must be unreachable once the "digests are equal" edge is removed from the graph
+                seen_, work_ = {0}, [0]
+                while work_:
+                    x_ = work_.pop()
+                    for sc_ in mirg.succs(blocks[x_]["t"]):
+                        if sc_ is None or sc_ in seen_ or (x_ == b2i and sc_ == equal_succ):
+                            continue
+                        seen_.add(sc_)
+                        work_.append(sc_)
+                ok_without_equal = [bb2 for bb2, k_, _p in rets if k_ == "ok" and bb2 in seen_]
+                if ok_without_equal:
+                    why = "an Ok result (bb%d) is reachable without the digests having compared equal" % ok_without_equal[0]
+                elif err_on_unequal and not ok_on_unequal and not ok_shared:
+                    good = True
+                else:
+                    why = "on the path where the digests differ the function can still produce Ok (unequal side results: %s%s)" % (kinds_excl, ", plus a shared Ok" if ok_shared else "")
         params = [b for p in vf.hir["params"] for b in hirq.pat_binds(p)]
         upd = [n for n in hirq.walk(body) if n.get("k") == "mcall" and n["m"] in ("update", "chain_update", "digest") or (n.get("k") == "call" and (n.get("fn") or "").endswith("::digest"))]
         hashed_param = any(any(hirq.render(hirq.strip(a)) == params[-1] for a in n["args"]) for n in upd) if params else False
